@@ -78,6 +78,8 @@ def run(idx, rep, tier):
     from . import c03, c06
     c03.matcher_forwards(idx, rep, "R2")
     c06.header_value_sequence(idx, rep, "R2")
+    # … and as the line is now: between lines every component is reset, also one that read an absent y (None) on the line before
+    c06.reset_table(idx, rep, "R2")
     # the table above runs on the checker's own small values, for which `is` and `==` coincide; the analysed code must not depend on that
     n = 0
     for cls in ("Equality", "Qualified", "Variable", "Matchable"):
